@@ -159,6 +159,32 @@ def bounded_transparency(reg, tier, seed):
                 fail(f"{name} emitted {len(sent)} datagrams (exception {exc!r}), expected exactly 1", {"message": name})
     finally:
         h.close()
+    # simulators on the viewer's own IP: an inbound datagram is recognised by its established route, whatever its first bytes look
+    # like (flags 0 and a packet ID of 256..511 / 768..1023 read like a SOCKS5 UDP header)
+    h3 = Harness(n_regions=2, same_ip=True)
+    try:
+        h3.open_circuits()
+        from hippolyzer.lib.base.message.message import Message as _M3, Block as _B3
+        for ridx in (0, 1):
+            for pid in (1, 255, 256, 257, 300, 511, 512, 767, 768, 900, 1023, 1024, 65792, 16777472):
+                m = _M3("CompletePingCheck", _B3("PingID", PingID=pid % 256), packet_id=pid, direction=Direction.IN)
+                data, src = h3.datagram(m, ridx)
+                exc, sent = h3.feed(data, src)
+                evals += 1
+                seen.add(("same-ip", ridx, pid))
+                inp = {"topology": "simulator on the client's IP", "region": ridx, "packet_id": pid, "datagram": data.hex()}
+                if exc is not None or len(sent) != 1:
+                    failures.append({"key": "transparency/bounded", "clause": f"inbound datagram with packet id {pid} emitted {len(sent)} datagrams "
+                                     f"(exception {exc!r}), expected exactly 1", "input": inp, "observed": str(len(sent))})
+                    continue
+                raw, dst, pkt = sent[0]
+                if dst != h3.client_addr or raw[10:] != data:
+                    failures.append({"key": "transparency/bounded", "clause": f"inbound datagram with packet id {pid} was not relayed to the viewer intact",
+                                     "input": inp, "observed": f"dst={dst} payload={raw[10:].hex()[:60]}"})
+            if h3.protocol.far_to_near_map.get(h3.region_addrs[ridx]) != h3.client_addr:
+                failures.append({"key": "transparency/bounded", "clause": "a simulator's return route changed", "input": {"region": ridx}, "observed": ""})
+    finally:
+        h3.close()
     # pre-session datagrams: a fresh protocol with no session discards everything but UseCircuitCode
     h2 = Harness()
     try:
